@@ -154,6 +154,11 @@ def run(prop, tier, seed, t0, a):
     if eng.axioms_z3:
         eng.oblige(f"{prop}#canary.axioms-consistent", _State(), z3.BoolVal(False), kind='vacuity-neg')
     obls = eng.obligations
+    import re as _re
+    for pat in getattr(eng.reg, 'prefer_cvc5', []):
+        for o in obls:
+            if _re.search(pat, o.name) and o.meta.get('kind') != 'vacuity-neg':
+                o.meta['prefer'] = 'cvc5'
     timeout = 20 if tier == 'quick' else 90     # sized so that verdicts do not flip when all cores are busy
     solver_wall = smt.discharge(obls, timeout_s=timeout, both=(tier == 'thorough'))
     # non-SMT checks (exhaustive fact validation, Lean, structural checks)
